@@ -36,6 +36,7 @@ class EnergyStream(Stream):
             # the same laws must hold when part of the circuit is declared as monitors (another path through solve):
             # a random non-empty proper subset, preferably of several structures
             d["two_step"] = rng.random() < 0.3
+            d["nested"] = rng.random() < 0.3
             nc = len(d["comps"])
             if nc >= 2 and rng.random() < 0.3:
                 d["mon"] = sorted(rng.sample(range(nc), rng.randint(1, nc - 1) if nc < 3 else rng.randint(2, nc - 1)))
@@ -60,7 +61,15 @@ class EnergyStream(Stream):
                 sol, sts = netlib.build(d)
             for i in d.get("mon", []):
                 sol.monitor_structure(sts[i], name=f"M{i}")
-            mod = sol.solve()
+            if d.get("nested"):
+                # the (possibly monitored) circuit is itself placed in a parent with all its pins raised: the laws
+                # are about what the parent reports
+                with netlib.lk.Solver() as top:
+                    sol.put()
+                    netlib.lk.raise_pins()
+                mod = top.solve()
+            else:
+                mod = sol.solve()
             got = sorted(p.name for p in mod.pin_dic)
             if got != sorted(names):
                 raise ValueError("exposed pin set differs")
